@@ -3,7 +3,7 @@ from .. import common as C, generic as G
 from . import C17
 
 TRUSTED = ['Coq 8.16.1 kernel', 'Coq Reals: radius arithmetic is exact-real, rounding not modelled', 'translator/fragments.py: one Gallina definition per radius write site (control.X/self.X -> X, params(k) -> parameter)', 'translator/tables.py: write-site exhaustiveness and guards as source text', 'parameter ranges of params.py as hypotheses (gamma_dec in (0,1), alpha1, alpha2 in (0,1), rhoend_scale in (0,1], tau in (0,1])']
-PERRUN = ['Char_model.v', 'Char_controller.v', 'C18.v']
+PERRUN = ['Char_model.v', 'Char_controller.v', 'Slots.v', 'C10.v', 'C18.v']
 GEN = ('Gen_util', 'Gen_model', 'Gen_controller', 'Gen_solver', 'Gen_tables')
 
 
